@@ -284,6 +284,13 @@ fn simpler(e: &Ev, timeout: u128) -> Vec<Ev> {
                 v.push(Ev::Repeat { k: *k - 1, n: *n });
             }
         }
+        Ev::Hop { n } => {
+            for t in [1u8, n / 2, n - 1] {
+                if t >= 1 && t < *n {
+                    v.push(Ev::Hop { n: t });
+                }
+            }
+        }
         Ev::Poll { .. } | Ev::Reset | Ev::Snapshot | Ev::Restore => {}
     }
     v
